@@ -456,10 +456,14 @@ def sim_configs(gd, n, traces, seed):
     rng = random.Random("c12sim:%d" % seed)
     pool = [f for f in X.ALL_FEATURES if f not in ("n:e1", "tf:bare", "tf:tt", "t:plain")]
     wellformed = [f for f in pool if f not in X.MALFORMED_FEATURES]
+    # features that trigger a recorded deviation only from the budget too: Emit enumerates the subsets
+    # of the deviations that matter for a document (2^n implementations)
+    triggers = {"t:cr", "av:tab", "ns:damp", "ns:pamp", "t:ctrl", "av:ctrl", "enc:latin1", "enc:utf16"}
+    calm = [f for f in wellformed if f not in triggers]
     runs = []
     for k in range(n):
         # malformed pieces only from the budget: a free one would make nearly every document an ERROR
-        core = ["n:e1", "tf:bare", "tf:tt", "t:plain"] + rng.sample(wellformed, 5)
+        core = ["n:e1", "tf:bare", "tf:tt", "t:plain"] + rng.sample(calm, 5)
         rare = rng.sample([f for f in wellformed if f not in core], 8) + rng.sample(X.MALFORMED_FEATURES, 2)
         name = "sim%d" % k
         X.write_cfg(gd, name, 4, 4, 12, 3, core, rare, INVS)
